@@ -327,6 +327,7 @@ class Builder:
         """Build a Wikicode object from a list tokens and return it."""
         self._tokens = tokenlist
         self._tokens.reverse()
+        self._stacks = []
         self._push()
         while self._tokens:
             node = self._handle_token(self._tokens.pop())
